@@ -87,16 +87,23 @@ def cases(tier, seed):
         sub = np.random.default_rng(int(rng.integers(1 << 31)))
         chains = hg.rand_chain_list(sub, L, 12 if r % 3 else 4)
         yield mk('random', L, chains)
+    # MPO stage on arbitrary consistent graphs (parallel edges, multi-operator edges, arbitrary ids, dangling nodes)
+    for r in range(2500 if quick else 40000):
+        length = int(rng.integers(1, 5))
+        gd = hg.gd_typed(hg.rand_layered_graph(rng, length, 3, dangling=(r % 10 == 0)))
+        nmap = {n[0]: int(x) for n, x in zip(gd['nodes'], rng.choice(range(-3, 3 * len(gd['nodes'])), size=len(gd['nodes']), replace=False))}
+        emap = {e[0]: int(x) for e, x in zip(gd['edges'], rng.choice(range(-3, 3 * len(gd['edges'])), size=len(gd['edges']), replace=False))}
+        yield dict(kind='graph', L=length, graph=hg.gd_relabel(gd, nmap, emap), dangling=(r % 10 == 0), seed=int(rng.integers(1 << 31)))
 
 
-def check_mpo(fail, qual, graph, gp, L, charges, rng):
+def check_mpo(fail, qual, graph, gp, L, charges, rng, oid_identity=OID_ID):
     """MPO stage of the property for a consistent graph with path polynomial gp"""
     if L <= 5:
         qd = [0, 1, 2]
     else:
         qd = [0, 1]
     d = len(qd)
-    opmap = hg.rand_opmap(rng, qd, charges, OID_ID)
+    opmap = hg.rand_opmap(rng, qd, charges, oid_identity)
     try:
         mpo = ptn.MPO.from_opgraph(qd, graph, opmap, compute_nid_map=True)
     except Exception as e:
@@ -165,12 +172,30 @@ def check_mpo(fail, qual, graph, gp, L, charges, rng):
 def run_case(c):
     rng = np.random.default_rng(c['seed'])
     L = c['L']
-    chains_d = c['chains']
     fails = []
 
     def fail(clause, detail, signature):
         fails.append(dict(clause=clause, detail=detail, signature=signature))
 
+    if c['kind'] == 'graph':
+        gd = c['graph']
+        key = json.dumps(['graph', gd])
+        qual = ':dangling' if c.get('dangling') else ''
+        graph = hg.build_graph(gd)
+        ref = hg.gd_poly(gd)                      # polynomial of the descriptor (forward DP over the edge table)
+        try:
+            gp = hg.graph_poly(graph)             # polynomial of the constructed object (memoised backward traversal)
+            ok = hg.p_eq(gp, ref) and graph.is_consistent()
+        except hg.Malformed:
+            ok = False
+        if not ok:
+            fail('construct', 'OpGraph built from OpGraphNode/OpGraphEdge/add_connect_edge does not denote its description or is inconsistent',
+                 f'OpGraph.add_connect_edge:construct{qual}')
+            return dict(failures=fails, nontrivial=True, key=key)
+        check_mpo(fail, qual, graph, gp, L, hg.graph_charges(gd), rng, None)
+        return dict(failures=fails, nontrivial=len(gd['edges']) >= 2, key=key)
+
+    chains_d = c['chains']
     key = json.dumps([L, chains_d])
     nontrivial = not (len(chains_d) == 1 and all(o == OID_ID for o in chains_d[0][0]))
     assert any(ch[2] != 0 for ch in chains_d)          # generator invariant: precondition of the property
